@@ -231,21 +231,13 @@ fn c16_builder_step_next_label() {
     kani::cover!(r.is_err() && w == 255 && old.label_len > 0, "label that would end at octet 256 rejected");
 }
 
-// @harness props=C16 tier=quick mem=6 t=1200 fn="NameBuilder::try_push_slice"
-//   bound="one try_push_slice of every slice of 0..=64 octets (symbolic length and contents) from every state satisfying INV; unwind 66"
-//   sym="wire:[u8;255], offs:[u8;128], w, n, label_start, label_len, data:[u8;64], len<=64, k, i, j, p"
-//   stubs="S7"
-#[kani::proof]
-#[kani::unwind(66)]
-#[kani::stub(arrayvec::ArrayVec::try_extend_from_slice, try_extend_model)]
-fn c16_builder_step_try_push_slice() {
+/// One try_push_slice of `data[..len]` from an arbitrary valid state; the full
+/// contract.  `len` may be symbolic (bounded by the caller's assumptions).
+fn step_try_push_slice(data: &[u8; 64], len: usize) {
     let k: usize = kani::any();
     let i: usize = kani::any();
     let j: usize = kani::any();
     let (old, mut b) = any_valid_builder(k);
-    let data: [u8; 64] = kani::any();
-    let len: usize = kani::any();
-    kani::assume(len <= 64);
     let r = b.try_push_slice(&data[..len]);
     let w = old.w;
     let fits = (old.label_len as usize) + len <= 63 && w + len <= 255;
@@ -268,11 +260,87 @@ fn c16_builder_step_try_push_slice() {
     }
     assert!(inv_shape(&b), "[C16] try_push_slice preserves the representation invariant");
     assert!(inv_label(&b, k), "[C16] try_push_slice preserves the per-label invariant");
-    kani::cover!(r.is_ok() && old.label_len == 0 && len == 63, "a whole 63-octet label pushed at once");
-    kani::cover!(r.is_err() && old.label_len == 0 && len == 64 && w < 100, "a 64-octet label rejected");
-    kani::cover!(r.is_ok() && w + len == 255 && len > 1, "slice ending at octet 255 accepted");
-    kani::cover!(r.is_err() && w + len == 256 && old.label_len as usize + len <= 63, "slice ending at octet 256 rejected");
+    kani::cover!(r.is_ok() && len == 3 && old.label_len == 60, "slice ending at octet 63 of the label accepted");
+    kani::cover!(r.is_err() && len == 3 && old.label_len == 61 && w < 100, "slice ending at octet 64 of the label rejected");
+    kani::cover!(r.is_ok() && w + len == 255 && len == 2, "slice ending at octet 255 of the name accepted");
+    kani::cover!(r.is_err() && w + len == 256 && len == 2 && old.label_len < 10, "slice ending at octet 256 of the name rejected");
     kani::cover!(r.is_ok() && len == 0, "empty slice accepted");
+}
+
+// @harness props=C16 tier=quick mem=4 t=1200 fn="NameBuilder::try_push_slice"
+//   bound="one try_push_slice of every slice of 0..=3 octets (symbolic length and contents) from every state satisfying INV; unwind 5"
+//   sym="wire:[u8;255], offs:[u8;128], w, n, label_start, label_len, data:[u8;64], len<=3, k, i, j, p"
+//   stubs="S7"
+#[kani::proof]
+#[kani::unwind(5)]
+#[kani::stub(arrayvec::ArrayVec::try_extend_from_slice, try_extend_model)]
+fn c16_builder_step_try_push_slice_small() {
+    let data: [u8; 64] = kani::any();
+    let len: usize = kani::any();
+    kani::assume(len <= 3);
+    step_try_push_slice(&data, len);
+}
+
+// @harness props=C16 tier=quick mem=4 t=1200 fn="NameBuilder::try_push_slice"
+//   bound="every slice of 0..=64 octets (symbolic length) from every state satisfying INV in which the slice must be REJECTED (label > 63 or name > 255 afterwards): rejected and state unchanged; unwind 66"
+//   sym="wire:[u8;255], offs:[u8;128], w, n, label_start, label_len, data:[u8;64], len<=64, k, i, j"
+//   stubs="S7"
+#[kani::proof]
+#[kani::unwind(66)]
+#[kani::stub(arrayvec::ArrayVec::try_extend_from_slice, try_extend_model)]
+fn c16_builder_step_try_push_slice_too_long() {
+    let k: usize = kani::any();
+    let i: usize = kani::any();
+    let j: usize = kani::any();
+    let (old, mut b) = any_valid_builder(k);
+    let data: [u8; 64] = kani::any();
+    let len: usize = kani::any();
+    kani::assume(len <= 64);
+    kani::assume((old.label_len as usize) + len > 63 || old.w + len > 255);
+    let r = b.try_push_slice(&data[..len]);
+    assert!(r.is_err(), "[C16] try_push_slice rejects a slice that makes the label > 63 or the name > 255 octets");
+    assert!(unchanged(&b, &old, i, j), "[C16] a failed try_push_slice leaves the builder unchanged");
+    kani::cover!(old.label_len == 0 && len == 64 && old.w < 100, "a 64-octet label rejected");
+    kani::cover!(old.label_len == 1 && len == 63 && old.w < 100, "63 more octets after one rejected");
+    kani::cover!(old.w + len == 256 && old.label_len as usize + len <= 63 && len == 40, "slice ending at octet 256 rejected");
+}
+
+// @harness props=C16 tier=thorough mem=8 t=3400 fn="NameBuilder::try_push_slice"
+//   bound="one try_push_slice of a slice of exactly 63 octets (symbolic contents) from every state satisfying INV; unwind 66"
+//   sym="wire:[u8;255], offs:[u8;128], w, n, label_start, label_len, data:[u8;64], k, i, j, p"
+//   stubs="S7"
+#[kani::proof]
+#[kani::unwind(66)]
+#[kani::stub(arrayvec::ArrayVec::try_extend_from_slice, try_extend_model)]
+fn c16_builder_step_try_push_slice_63() {
+    let data: [u8; 64] = kani::any();
+    step_try_push_slice_63(&data);
+}
+
+fn step_try_push_slice_63(data: &[u8; 64]) {
+    let k: usize = kani::any();
+    let i: usize = kani::any();
+    let j: usize = kani::any();
+    let (old, mut b) = any_valid_builder(k);
+    let r = b.try_push_slice(&data[..63]);
+    let fits = old.label_len == 0 && old.w + 63 <= 255;
+    assert!(r.is_ok() == fits, "[C16] a 63-octet slice is accepted exactly into an empty label when the name stays <= 255 octets");
+    if r.is_ok() {
+        assert!(b.wire_repr.len() == old.w + 63, "[C16] try_push_slice appends all octets");
+        let p: usize = kani::any();
+        kani::assume(p < 63);
+        assert!(b.wire_repr[old.w + p] == data[p], "[C16] try_push_slice appends the given octets in order");
+        assert!(i >= old.w || b.wire_repr[i] == old.wire[i], "[C16] try_push_slice keeps the earlier octets");
+        assert!(b.label_len == 63 && b.label_start == old.label_start, "[C16] try_push_slice extends the current label");
+        assert!(b.label_offsets.len() == old.n, "[C16] try_push_slice adds no label");
+        kani::cover!(old.w == 192, "63-octet label ending at octet 255 accepted");
+        kani::cover!(old.w == 1, "63-octet first label accepted");
+    } else {
+        assert!(unchanged(&b, &old, i, j), "[C16] a failed try_push_slice leaves the builder unchanged");
+        kani::cover!(old.label_len == 0 && old.w == 193, "63-octet label ending at octet 256 rejected");
+    }
+    assert!(inv_shape(&b), "[C16] try_push_slice preserves the representation invariant");
+    assert!(inv_label(&b, k), "[C16] try_push_slice preserves the per-label invariant");
 }
 
 // @harness props=C16 tier=quick mem=6 t=1200 fn="NameBuilder::finish,new_boxed_name,Name::initialize_into"
